@@ -604,6 +604,9 @@ type NodeOpts struct {
 	OffchainConfig []byte
 	Digest         [32]byte
 	OracleID       int
+	// Decoy, when set, makes the factory build (and close) another instance with these options first: libocr
+	// calls NewReportingPlugin on ONE factory for every config, so nothing may carry over from instance to instance
+	Decoy *NodeOpts
 }
 
 var quietLogger = log.New(io.Discard, "", 0)
@@ -623,6 +626,20 @@ func NewNodeWith(t testing.TB, o NodeOpts, events types.TransmitEventProvider) *
 	fac := plugin.NewReportingPluginFactory(n.Logs, events, n.Blocks, n.Recov, fakeBuilder{}, n.Getter, n.Run,
 		runner.RunnerConfig{Workers: 4, WorkerQueueLength: 100, CacheExpire: 20 * time.Minute, CacheClean: 30 * time.Second},
 		n.Enc, utg, wg, n.States, quietLogger)
+	if d := o.Decoy; d != nil {
+		doc := d.OffchainConfig
+		if doc == nil {
+			doc = []byte(`{}`)
+		}
+		dp, _, err := fac.NewReportingPlugin(context.Background(), ocr3types.ReportingPluginConfig{
+			ConfigDigest: ocr2plustypes.ConfigDigest(d.Digest), OracleID: commontypes.OracleID(d.OracleID), N: d.N, F: d.F, OffchainConfig: doc,
+		})
+		if err == nil {
+			time.Sleep(1500 * time.Millisecond) // virtual: every service of the decoy reaches its running state
+			dp.Close()
+			time.Sleep(11 * time.Second)
+		}
+	}
 	oc := o.OffchainConfig
 	if oc == nil {
 		oc = []byte(`{}`)
